@@ -47,6 +47,9 @@ pub struct Scenario {
     pub goal_fail_at: Option<(usize, u8)>,
     /// the goal sampler fails at every call from the k-th on
     pub goal_fail_from: Option<(usize, u8)>,
+    /// a life before the scenario proper: after a first `setup` the planner is driven with these letters
+    /// (PRM: a roadmap is built from them), then `setup` is called again with the same problem
+    pub prelife: Vec<u8>,
     pub params: Params,
     pub tag: String,
 }
@@ -65,6 +68,7 @@ impl Scenario {
             "extra_starts": self.extra_starts.iter().map(|v| v.json()).collect::<Vec<_>>(),
             "goal_sampler_fails_at": format!("{:?}", self.goal_fail_at),
             "goal_sampler_fails_from": format!("{:?}", self.goal_fail_from),
+            "prelife": self.prelife,
             "params": self.params.json(),
             "tag": self.tag,
         })
@@ -199,7 +203,21 @@ impl<K: Kit> Rig<K> {
         if do_setup {
             drv.setup(pd.clone(), world.clone());
         }
-        Rig { sc: sc.clone(), space, goal, world, pd, drv, alphabet, start }
+        let mut rig = Rig { sc: sc.clone(), space, goal, world, pd, drv, alphabet, start };
+        if do_setup && !sc.prelife.is_empty() {
+            if rig.is_prm() {
+                let _ = rig.construct(&sc.prelife);
+            } else {
+                let _ = rig.feed(&sc.prelife);
+            }
+            if sc.params.pk == Pk::Connect {
+                rig.goal.script.borrow_mut().push(sc.goal_root);
+            }
+            rig.drv.setup(rig.pd.clone(), rig.world.clone());
+            rig.space.expire_when_exhausted.set(sc.params.bias >= 1.0);
+            oxmpl::verif::clock_reset(1_000_000);
+        }
+        rig
     }
     pub fn logging(&self, on: bool) {
         self.space.log_on.set(on);
